@@ -87,6 +87,12 @@ impl ReplicationHandle {
     pub(crate) fn kill(&self) {
         self.kill_switch.store(true, Ordering::Relaxed);
     }
+
+    #[cfg(datacake_verif)]
+    /// Verification hook: the id this service's events carry.
+    pub(crate) fn verif_id(&self) -> usize {
+        Arc::as_ptr(&self.kill_switch) as usize
+    }
 }
 
 /// A enqueued event/operation for the cycle to handle next tick.
@@ -152,6 +158,13 @@ async fn replication_cycle<S>(
             }
         }
 
+        #[cfg(datacake_verif)]
+        crate::verif::members_event(
+            "mc_poll",
+            Arc::as_ptr(&kill_switch) as usize,
+            &live_members,
+            keyspace_tracker.inner.keys().copied(),
+        );
         repair_members(&ctx, &live_members, &mut keyspace_tracker).await;
     }
 }
